@@ -1,7 +1,7 @@
 (* Properties/C05.v — arrange orders stably; window functions see the right rows in the right order. *)
 From Coq Require Import List String NArith ZArith Bool Permutation.
 From PDT Require Import Base.StableSort Model.Dtype Model.Value Model.Ops Model.Expr Model.RefSem
-     Model.SqlCompile Model.PlCompile Proofs.SortLemmas Proofs.RefLemmas Proofs.ArrangeLemmas Proofs.EvalRel Proofs.PlCompileLemmas.
+     Model.SqlCompile Model.PlCompile Proofs.SortLemmas Proofs.RefLemmas Proofs.ArrangeLemmas Proofs.EvalRel Proofs.SqlCompileLemmas Proofs.PlCompileLemmas.
 From PDTGen Require Import Catalogue.
 Import ListNotations.
 Open Scope list_scope.
@@ -82,6 +82,23 @@ Theorem polars_plan_is_the_reference : forall d a st,
 Proof. exact pl_compile_correct_proof. Qed.
 Print Assumptions polars_plan_is_the_reference.
 
+(* SQL: compile_col_expr inlines the definition of every column it meets (sqa_expr).  Inlining preserves
+   the value of EVERY expression form - window functions with partition_by and arrange= included -
+   provided the inlined definitions, evaluated over the FROM rows, give what the reference rows hold *)
+Theorem inlining_preserves_every_expression : forall e ds ctxB ctxR curB curR,
+  Forall2 (srel ds ctxB (cols e)) ctxB ctxR -> srel ds ctxB (cols e) curB curR ->
+  eval ctxB curB (subst ds e) = eval ctxR curR e.
+Proof. exact subst_rel. Qed.
+Print Assumptions inlining_preserves_every_expression.
+
+(* ... hence the SELECT that the SQL backend builds hands every window function of a mutate the rows that
+   the reference semantics hands it (the rows that pass WHERE, in FROM order), and the ordered / limited
+   result is the reference table, for all data (flat_ok: Properties/C01.v) *)
+Theorem sql_statement_is_the_reference : forall d a c,
+  compile a = Some c -> flat_ok a = true -> sem_query d c = export_ref (sem_ref d a).
+Proof. exact sql_compile_correct_proof. Qed.
+Print Assumptions sql_statement_is_the_reference.
+
 (* non-vacuity: markers, partitions and order-sensitive windows on a small table *)
 Example window_example :
   let d := [("t"%string, [[VInt 1; VInt 3]; [VInt 1; VNull]; [VInt 2; VInt 5]; [VInt 1; VInt 2]])] in
@@ -92,5 +109,6 @@ Example window_example :
   f_rows (export_ref (sem_ref d a))
   = [[VInt 1; VInt 3; VInt 1; VInt 5]; [VInt 1; VNull; VInt 3; VNull];
      [VInt 2; VInt 5; VInt 1; VInt 5]; [VInt 1; VInt 2; VInt 2; VInt 2]]
-  /\ pflat_ok d (Arrange a [(ECol 3%N, (false, Some true)); (ECol 2%N, (true, Some false))]) = true.
-Proof. vm_compute. split; reflexivity. Qed.
+  /\ pflat_ok d (Arrange a [(ECol 3%N, (false, Some true)); (ECol 2%N, (true, Some false))]) = true
+  /\ flat_ok (Arrange a [(ECol 3%N, (false, Some true)); (ECol 2%N, (true, Some false))]) = true.
+Proof. vm_compute. repeat split; reflexivity. Qed.
